@@ -25,7 +25,6 @@ NA = {
  "C23": "not claimed: serializer round-trip contracts and the closure property of record transfer planned in DESIGN §8 were not built",
  "C24": "not claimed: the statement is about histories of tag operations (multiset semantics over SQL rows); DESIGN §8 planned only a bounded stand-in, which was not built",
  "C25": "not claimed: handle lineage is a history property over the Handle state model; the hash/lineage function contracts planned in DESIGN §8 were not built",
- "C32": "not claimed: the remote job protocol spans processes and object storage; the index/naming contracts planned in DESIGN §8 were not built",
  "C35": "not claimed: configparser interpolation is string-library behaviour outside the encoded subset; DESIGN §8 planned only a bounded stand-in, which was not built",
  "C36": "behaviour lives in Alembic DDL/DML executed by the database engine; no Python function whose contract states row preservation",
 }
